@@ -4,7 +4,7 @@
 (* the transcription (T) and the property on the model (ModelOk) and exports *)
 (* every case.  One case = one distinct state.                               *)
 EXTENDS Ufunc, Json
-CONSTANTS Units, ConvUnits, UKinds0, UKinds1, UfOps, Forms, ArrFns, Fams, SpUnits, Hists, HUnits
+CONSTANTS Units, ConvUnits, UKinds0, UKinds1, UfOps, Forms, ArrFns, Fams, SpUnits, Hists, HUnits, ArrForms, AliasOps, DlUnits
 NoTable == [x \in {} |-> 0]
 
 VARIABLE c
@@ -80,6 +80,31 @@ ArrShapeLegal(op, k0, k1) ==
        [] op \in V2InPlace \cup {"copyto_where"} -> k0 = "a" /\ k1 \in {"a1","q0a"}
        [] OTHER -> FALSE
 
+\* call forms of the array functions (Ufunc.tla: ArrFormsAll).  Which spellings exist is a fact about NumPy's
+\* signatures (positional-only parameters, out=, the alias names of this NumPy: AliasOps), not about unyt.
+NoKw == {"concatenate","where","pad","histogram_range","einsum"}          \* positional-only / the value slot is a keyword already
+KwAllOps == {"append","choose","select","intersect1d","union1d","setdiff1d","setxor1d","isin","interp","linspace","geomspace","insert",
+             "searchsorted","clip","put","place","put_along_axis","fill_diagonal","isclose","allclose","array_equal","array_equiv"}
+OutOps == {"clip","concatenate","stack","choose"}
+ArrFormLegal(op, form) ==
+  CASE form = "call" -> TRUE
+    [] form = "kw" -> op \notin NoKw
+    [] form = "kwall" -> op \in KwAllOps
+    [] form = "out" -> op \in OutOps
+    [] form = "kwout" -> op \in OutOps \ NoKw
+    [] form \in {"lo","hi","kwlo","kwhi","method","methodkw","methodlo","methodhi"} -> op \in TwoBound
+    [] form \in {"alias","aliaslo","aliashi","aliasout"} -> op \in TwoBound \cap AliasOps
+    [] OTHER -> FALSE
+\* the forms are offered to plain operand kinds (every value class / sequence / shape class keeps the positional form)
+FormUnits == (HUnits \cup {"nd","K"}) \cap Units
+FormK0 == {"a","q"}
+FormK1 == {"q","a","bs","ba","lq","lqm"}
+\* scaled dimensionless units (percent, the ratio lb/la, nq): dimension 1 but NOT the null unit.  They meet the units
+\* SpUnits / nd / each other in every family, on plain operand kinds
+DlPair(n0, n1) == (n0 \in DlUnits /\ n1 \in SpUnits) \/ (n1 \in DlUnits /\ n0 \in SpUnits)
+DlKinds == {"q","a","lq"}
+DlUnitOk(k, n) == IF HasUnit(k) THEN TRUE ELSE n = "nd"
+
 Next ==
   /\ c = <<>>
   /\ \/ /\ "ufunc" \in Fams
@@ -95,6 +120,24 @@ Next ==
         /\ \E op \in ArrFns \cap ArrOps, k0 \in UKinds0, k1 \in UKinds1, n0 \in SpUnits \cup {"nd"}, n1 \in SpUnits \cup {"nd"} :
              /\ ArrShapeLegal(op, k0, k1) /\ UnitOk(k0, n0) /\ UnitOk(k1, n1)
              /\ c' = Case("arrfn", op, "call", k0, n0, k1, n1)
+     \/ /\ "arrfn" \in Fams
+        /\ \E op \in ArrFns \cap ArrOps, form \in ArrForms \ {"call"}, k0 \in UKinds0 \cap FormK0, k1 \in UKinds1 \cap FormK1,
+              n0 \in FormUnits, n1 \in FormUnits :
+             /\ ArrLegal(op, k0, k1) /\ ArrFormLegal(op, form) /\ DlUnitOk(k0, n0) /\ DlUnitOk(k1, n1)
+             /\ c' = Case("arrfn", op, form, k0, n0, k1, n1)
+     \/ /\ "arrfn" \in Fams
+        /\ \E op \in ArrFns \cap ArrOps, k0 \in UKinds0 \cap DlKinds, k1 \in UKinds1 \cap DlKinds, n0 \in Units \cup DlUnits, n1 \in Units \cup DlUnits :
+             /\ ArrLegal(op, k0, k1) /\ DlUnitOk(k0, n0) /\ DlUnitOk(k1, n1) /\ DlPair(n0, n1)
+             /\ c' = Case("arrfn", op, "call", k0, n0, k1, n1)
+     \/ /\ "ufunc" \in Fams
+        /\ \E op \in UfOps \cap KnownOps, form \in Forms \cap {"call","operator","iop"}, k0 \in UKinds0 \cap {"q","a"}, k1 \in UKinds1 \cap {"q","a"},
+              n0 \in Units \cup DlUnits, n1 \in Units \cup DlUnits :
+             /\ UfLegal(op, form, k0, k1) /\ DlUnitOk(k0, n0) /\ DlUnitOk(k1, n1) /\ DlPair(n0, n1)
+             /\ c' = Case("ufunc", op, form, k0, n0, k1, n1)
+     \/ /\ "setitem" \in Fams
+        /\ \E k1 \in UKinds1 \cap {"q","a","lq","tlq","lbq","a1"}, n0 \in Units \cup DlUnits, n1 \in Units \cup DlUnits :
+             /\ DlPair(n0, n1) \/ (n0 \in {"nd"} \cup DlUnits /\ n1 \in Units)
+             /\ c' = Case("setitem", "setitem", IF Shape(k1) = "s" THEN "index" ELSE "slice", "a", n0, k1, n1)
      \/ /\ "setitem" \in Fams
         /\ \E k1 \in UKinds1 \ {"c"}, n0 \in Units, n1 \in Units \cup {"nd"} :
              /\ UnitOk(k1, n1) /\ (k1 \in Restricted => k1 \in ArrSpecial \cup {"tq","tqa","tlq","a1","q0a"} /\ n0 \in SpUnits /\ n1 \in SpUnits \cup {"nd"})
